@@ -47,6 +47,8 @@ func runC16(c *Ctx) {
 	c.ruleCompletionOrder("R16.2")
 	c.ruleCasTransitions("R16.3")
 	c.ruleWaitWaits("R16.4")
+	// Wait is released only by the Close that won the transition to Closed
+	c.ruleCloseEffectsNeedWin("R16.5")
 }
 
 func (c *Ctx) ruleQueuedBeforePublication(rule string) {
@@ -251,8 +253,13 @@ func (c *Ctx) ruleCompletedOnce(rule string) {
 		}
 	}
 	c.ruleWrapperAccounting(rule)
-	// who may count what: Completed only in the completion callback, Successful/Failed only in the wrappers,
-	// Submitted only in the submit functions and the subscription handler
+	c.ruleWhoCounts(rule)
+}
+
+// ruleWhoCounts: Completed only in the completion callback, Successful/Failed only in the worker-function wrappers,
+// Submitted only in the submit functions and the subscription handler; the counters themselves only through inc*/Reset.
+func (c *Ctx) ruleWhoCounts(rule string) {
+	R := c.R
 	wrappers := c.fieldFuncTargets(R.FWorkerFn)
 	var submitters []*Func
 	submitters = append(submitters, c.submitFuncs()...)
@@ -1021,6 +1028,14 @@ func (c *Ctx) ruleMinimumIdle(rule string) {
 			if sg.has("below-min=true") {
 				sawKeep = true
 				c.Rep.check(sg.has("push") && !sg.has("stop"), rule, R.FreeNode.Short(), "node retired although fewer than the minimum are idle", sg.End, "idle < minimum ⇒ node kept", "freePoolNode retires a node on the path where fewer than the minimum are idle ["+strings.Join(sg.Syms, " ")+"]")
+			}
+		}
+		// ... and it retires a node only on a path where it found at least the minimum idle (whatever else the path
+		// tested: a status, a timer — the idle floor holds while paused as well)
+		for _, sg := range sr.segments(R.FreeNode) {
+			if sg.Kind == "path" && sg.has("stop") {
+				c.Rep.check(sg.before("below-min=false", "stop"), rule, R.FreeNode.Short(), "node retired without the minimum-idle test", sg.End, "retire only after idle >= minimum was established",
+					"freePoolNode retires a node on a path that did not establish that at least the minimum number of workers is idle: the idle floor (and an idle expiry) are bypassed on that path ["+strings.Join(sg.Syms, " ")+"]")
 			}
 		}
 		c.Rep.check(sawKeep, rule, R.FreeNode.Short(), "no minimum-idle test", c.P.pos(R.FreeNode.Body), "freePoolNode compares the idle count with the minimum", "freePoolNode never compares the idle count with the configured minimum: idle workers are not kept")
